@@ -105,36 +105,14 @@ theorem total_perm (l₁ l₂ : List (Spend ℝ)) (h : l₁.Perm l₂) (slack : 
 theorem total_mono (l : List (Spend ℝ)) (slack e d : ℝ)
     (hl : ∀ sp ∈ l, sp.delta ≤ 1) (hs0 : 0 ≤ slack) (hs1 : slack ≤ 1) (he : 0 ≤ e) (hd0 : 0 ≤ d) :
     (totalCore l slack).eps ≤ (totalCore (l ++ [⟨e, d⟩]) slack).eps ∧
-    (totalCore l slack).delta ≤ (totalCore (l ++ [⟨e, d⟩]) slack).delta := by
-  constructor
-  · rcases eq_or_lt_of_le hs0 with h0 | hpos
-    · subst h0
-      rw [totalCore_eps_zero, totalCore_eps_zero]
-      simp only [List.map_append, List.sum_append, List.map_cons, List.map_nil, List.sum_cons, List.sum_nil]
-      linarith
-    · rw [totalCore_eps_pos _ _ hpos.ne', totalCore_eps_pos _ _ hpos.ne']
-      simp only [List.map_append, List.sum_append, List.map_cons, List.map_nil, List.sum_cons, List.sum_nil]
-      apply epsOf_mono _ _ (sum_sq_nonneg l) _ hpos hs1
-      · linarith
-      · linarith [gTerm_nonneg he]
-      · linarith [mul_self_nonneg e]
-  · rw [totalCore_delta, totalCore_delta]
-    simp only [List.map_append, List.prod_append, List.map_cons, List.map_nil, List.prod_cons, List.prod_nil]
-    have hp := prod_one_sub_nonneg l hl
-    have : 0 ≤ (1 - slack) * (l.map (fun sp => 1 - sp.delta)).prod * d :=
-      mul_nonneg (mul_nonneg (by linarith) hp) hd0
-    nlinarith
+    (totalCore l slack).delta ≤ (totalCore (l ++ [⟨e, d⟩]) slack).delta :=
+  totalCore_mono_append l slack e d hl hs0 hs1 he hd0
 
 /-- the total is non-negative and its delta lies in [0, 1] for validated spends -/
 theorem total_range (l : List (Spend ℝ)) (slack : ℝ)
     (hl : ∀ sp ∈ l, 0 ≤ sp.delta ∧ sp.delta ≤ 1) (hs0 : 0 ≤ slack) (hs1 : slack ≤ 1) :
-    0 ≤ (totalCore l slack).delta ∧ (totalCore l slack).delta ≤ 1 := by
-  rw [totalCore_delta]
-  have hp := prod_one_sub_nonneg l (fun sp h => (hl sp h).2)
-  have hp1 := prod_one_sub_le_one l hl
-  constructor
-  · nlinarith
-  · nlinarith
+    0 ≤ (totalCore l slack).delta ∧ (totalCore l slack).delta ≤ 1 :=
+  totalCore_delta_range l slack hl hs0 hs1
 
 /-! ### non-vacuity -/
 
